@@ -382,7 +382,11 @@ func runC17Settings(k int, rng *Rng) CaseResult {
 	if cfg.Async != 0 {
 		w.Step(HistOpts{MaxObjs: 12, Rec: RecOpts{ValidOnly: true, Simple: true}, Mix: Mix{Ins: 70, Upd: 30}})
 	}
-	clockSettle() // a freshly started flusher runs its first iteration before it parks
+	// the flusher of a lazily loaded collection is started by the second
+	// access and runs one iteration before it parks: let that happen now, so
+	// that it is not mistaken for an effect of the refused calls
+	w.call("Count", func() { w.db.Count(&Rec{}) })
+	clockSettle()
 	before, beforeFiles := treeHash(w.root)
 	// (a) other constraints
 	for i := 0; i < 3 && !w.failed(); i++ {
